@@ -219,7 +219,12 @@ enum Ev {
     Crash { n: usize },
     Restart { n: usize },
     /// the application on node n has applied everything committed: `finalize_to(commit_index)`
-    Finalize { n: usize },
+    /// (`upto`: the application lags and has applied only that far)
+    Finalize {
+        n: usize,
+        #[serde(default)]
+        upto: Option<u64>,
+    },
     /// the leader's periodic tick (`tick_async`): automatic log compaction behind the finalized height
     LeaderTick { n: usize },
     /// a follower that can no longer be caught up from its leader's log asks it for the snapshot
@@ -573,6 +578,8 @@ struct Sim {
     crashes: Vec<u32>,
     /// node installed a snapshot since it was last started
     installed_since_boot: Vec<bool>,
+    /// node has been observed Leader at some point (generator bias only)
+    was_leader: Vec<bool>,
     next_payload: u64,
     next_seq: u64,
     dups: u32,
@@ -605,6 +612,7 @@ impl Sim {
             isolated: vec![false; cfg.nodes],
             crashes: vec![0; cfg.nodes],
             installed_since_boot: vec![false; cfg.nodes],
+            was_leader: vec![false; cfg.nodes],
             next_payload: 1,
             next_seq: 0,
             dups: 0,
@@ -738,6 +746,9 @@ impl Sim {
             (l.raft.state(), l.raft.current_term(), l.raft.commit_index(), l.raft.get_snapshot_metadata().map(|m| (m.last_included_index, m.last_included_term)))
         };
         self.mon.snaps[n] = snap;
+        if role == RaftState::Leader {
+            self.was_leader[n] = true;
+        }
         let step = self.step;
         self.mon.check(step, n, role, term, commit, log_may_have_changed);
     }
@@ -765,8 +776,10 @@ impl Sim {
     }
 
     /// The leader a lagging follower would pull a snapshot from: the node it believes to be leader,
-    /// provided that node really leads and its snapshot reaches beyond the end of the follower's log
-    /// (the follower is behind the snapshot). Nothing in the repository sends SnapshotRequest (only
+    /// provided that node really leads and either its snapshot reaches beyond the end of the
+    /// follower's log (the follower is behind the snapshot) or the leader's own
+    /// `needs_snapshot_for_follower` says that log replication cannot serve this follower any more
+    /// (its next_index has been backed up below the leader's first held entry). Nothing in the repository sends SnapshotRequest (only
     /// the two handlers exist), so the simulator plays the pulling follower's driver.
     fn snap_request_target(&self, n: usize) -> Option<usize> {
         if self.cfg.snap == 0 || n >= self.cfg.nodes {
@@ -782,7 +795,7 @@ impl Sim {
         }
         let ll = self.nodes[l].as_ref()?;
         let snap = ll.raft.get_snapshot_metadata()?;
-        if snap.last_included_index > me.raft.last_log_index() {
+        if snap.last_included_index > me.raft.last_log_index() || ll.raft.needs_snapshot_for_follower(&self.ids[n]) {
             Some(l)
         } else {
             None
@@ -1070,7 +1083,7 @@ impl Sim {
                 }
                 true
             }
-            Ev::Finalize { n } => {
+            Ev::Finalize { n, upto } => {
                 let n = *n;
                 if self.cfg.snap == 0 || n >= n_nodes || self.nodes[n].is_none() {
                     return false;
@@ -1079,6 +1092,7 @@ impl Sim {
                     let l = &self.nodes[n].as_ref().unwrap().raft;
                     (l.commit_index(), l.finalized_height())
                 };
+                let commit = upto.map_or(commit, |u| u.min(commit));
                 if commit <= fin {
                     return false;
                 }
@@ -1130,7 +1144,8 @@ impl Sim {
                 Ev::Deliver { key } | Ev::Dup { key } | Ev::Drop { key } => {
                     hash_combine(hash_str(&key.k), (key.from as u64) << 40 | (key.to as u64) << 32 | key.t << 8 | key.a)
                 }
-                Ev::Timeout { n } | Ev::Elapse { n } | Ev::Election { n } | Ev::Heartbeat { n } | Ev::QuorumCheck { n } | Ev::Isolate { n } | Ev::Heal { n } | Ev::Crash { n } | Ev::Restart { n } | Ev::Finalize { n } | Ev::LeaderTick { n } | Ev::SnapRequest { n } => *n as u64,
+                Ev::Timeout { n } | Ev::Elapse { n } | Ev::Election { n } | Ev::Heartbeat { n } | Ev::QuorumCheck { n } | Ev::Isolate { n } | Ev::Heal { n } | Ev::Crash { n } | Ev::Restart { n } | Ev::LeaderTick { n } | Ev::SnapRequest { n } => *n as u64,
+                Ev::Finalize { n, upto } => (*n as u64) << 16 | upto.unwrap_or(0),
                 Ev::Propose { n, hb } => (*n as u64) << 1 | *hb as u64,
             };
             self.hash = hash_combine(hash_combine(self.hash, hash_str(ev.kind())), tag);
@@ -1167,6 +1182,11 @@ struct Profile {
     w_finalize: u32,
     w_tick: u32,
     w_snapreq: u32,
+    /// election timers of nodes that have led before fire preferentially (re-elected leaders)
+    former_leaders: bool,
+    /// every leader reaches only one "near" follower reliably; AppendEntries to the others are lost
+    /// half of the time (entries acknowledged by a minority, divergent suffixes)
+    partial_replication: bool,
 }
 
 fn profile(rng: &mut Rng, cfg: &Cfg) -> Profile {
@@ -1193,6 +1213,8 @@ fn profile(rng: &mut Rng, cfg: &Cfg) -> Profile {
         w_finalize: if cfg.snap > 0 { *rng.pick(&[3, 6]) } else { 0 },
         w_tick: if cfg.snap > 0 { *rng.pick(&[3, 6]) } else { 0 },
         w_snapreq: if cfg.snap > 0 { *rng.pick(&[4, 10]) } else { 0 },
+        former_leaders: rng.chance(1, 3),
+        partial_replication: rng.chance(1, 3),
     }
 }
 
@@ -1202,6 +1224,7 @@ fn gen_event(rng: &mut Rng, p: &Profile, s: &Sim) -> Option<Ev> {
     let down: Vec<usize> = (0..n).filter(|&i| s.nodes[i].is_none()).collect();
     let leaders: Vec<usize> = live.iter().copied().filter(|&i| s.is_leader(i)).collect();
     let non_leaders: Vec<usize> = live.iter().copied().filter(|&i| !s.is_leader(i)).collect();
+    let former: Vec<usize> = if p.former_leaders { non_leaders.iter().copied().filter(|&i| s.was_leader[i]).collect() } else { Vec::new() };
     let deliverable: Vec<usize> = (0..s.inflight.len()).filter(|&k| s.nodes[s.inflight[k].to].is_some() && !s.inflight[k].slow).collect();
     let stragglers: Vec<usize> = (0..s.inflight.len())
         .filter(|&k| {
@@ -1259,13 +1282,24 @@ fn gen_event(rng: &mut Rng, p: &Profile, s: &Sim) -> Option<Ev> {
     Some(match rng.weighted(&w) {
         0 => {
             let k = if p.fifo_bias && rng.chance(2, 3) { deliverable[rng.below(deliverable.len().min(3))] } else { *rng.pick(&deliverable) };
-            Ev::Deliver { key: s.inflight[k].key.clone() }
+            let f = &s.inflight[k];
+            if p.partial_replication && f.key.k == "AE" && f.to != (f.from + 1) % n && rng.bool() {
+                Ev::Drop { key: f.key.clone() }
+            } else {
+                Ev::Deliver { key: f.key.clone() }
+            }
         }
         1 => Ev::Dup { key: s.inflight[rng.below(s.inflight.len())].key.clone() },
         2 => Ev::Drop { key: s.inflight[rng.below(s.inflight.len())].key.clone() },
-        3 => Ev::Timeout { n: *rng.pick(&non_leaders) },
+        3 => {
+            let pool = if !former.is_empty() && rng.chance(2, 3) { &former } else { &non_leaders };
+            Ev::Timeout { n: *rng.pick(pool) }
+        }
         4 => Ev::Elapse { n: *rng.pick(&non_leaders) },
-        5 => Ev::Election { n: *rng.pick(&non_leaders) },
+        5 => {
+            let pool = if !former.is_empty() && rng.chance(2, 3) { &former } else { &non_leaders };
+            Ev::Election { n: *rng.pick(pool) }
+        }
         6 => Ev::Heartbeat { n: *rng.pick(&leaders) },
         7 => Ev::Propose { n: *rng.pick(&leaders), hb: rng.chance(2, 3) },
         8 => Ev::QuorumCheck { n: *rng.pick(&leaders) },
@@ -1281,7 +1315,19 @@ fn gen_event(rng: &mut Rng, p: &Profile, s: &Sim) -> Option<Ev> {
         10 => Ev::Crash { n: *rng.pick(&crashable) },
         11 => Ev::Restart { n: *rng.pick(&down) },
         12 => Ev::Deliver { key: s.inflight[*rng.pick(&stragglers)].key.clone() },
-        13 => Ev::Finalize { n: *rng.pick(&finalizable) },
+        13 => {
+            let n = *rng.pick(&finalizable);
+            // sometimes the application lags behind what is committed
+            let upto = if rng.chance(1, 3) {
+                s.nodes[n].as_ref().map(|l| {
+                    let (c, f) = (l.raft.commit_index(), l.raft.finalized_height());
+                    f + 1 + rng.below((c - f) as usize) as u64
+                })
+            } else {
+                None
+            };
+            Ev::Finalize { n, upto }
+        }
         14 => Ev::LeaderTick { n: *rng.pick(&leaders) },
         _ => Ev::SnapRequest { n: *rng.pick(&pullers) },
     })
@@ -1780,7 +1826,7 @@ fn directed_scripts() -> Vec<(&'static str, usize, u64, Vec<Op>)> {
         s.extend(replicate(0, &[1])); // committed on n0 through n1
         s.extend(replicate(0, &[1]));
         s.extend(dropk(0, &[2], "AE"));
-        s.push(Op::E(Ev::Finalize { n: 0 }));
+        s.push(Op::E(Ev::Finalize { n: 0, upto: None }));
         s.push(Op::E(Ev::LeaderTick { n: 0 })); // snapshot at index 4
         s.push(Op::E(Ev::Heal { n: 2 }));
         s.push(Op::E(Ev::SnapRequest { n: 2 }));
@@ -1814,7 +1860,7 @@ fn directed_scripts() -> Vec<(&'static str, usize, u64, Vec<Op>)> {
         s.extend(props(0, 4)); // #1..#4
         s.extend(replicate(0, &[1])); // committed through n1
         s.extend(dropk(0, &[2], "AE"));
-        s.push(Op::E(Ev::Finalize { n: 0 }));
+        s.push(Op::E(Ev::Finalize { n: 0, upto: None }));
         s.push(Op::E(Ev::LeaderTick { n: 0 })); // snapshot at index 4
         s.push(Op::E(Ev::Heal { n: 2 }));
         s.push(Op::E(Ev::SnapRequest { n: 2 }));
@@ -1828,6 +1874,84 @@ fn directed_scripts() -> Vec<(&'static str, usize, u64, Vec<Op>)> {
         s.push(Op::E(Ev::Crash { n: 0 }));
         s.extend(elect(1, &[2])); // n1 holds 1..4
         out.push(("snapshot-arrives-after-append-entries-went-further", 3, 1, s));
+    }
+    // 7. (5 voters) A leader whose entries were acknowledged by a minority only loses its term, has
+    //    those entries overwritten, and leads again later: what it knew about its followers' logs in
+    //    the earlier term must be gone.
+    {
+        let mut s = Vec::new();
+        s.extend(elect(0, &[1, 2]));
+        s.extend(dropk(0, &[3, 4], "RV"));
+        s.extend(replicate(0, &[1, 2]));
+        s.extend(dropk(0, &[3, 4], "AE"));
+        s.extend(props(0, 3)); // #1..#3 at 1..3 (term 1)
+        s.push(Op::E(Ev::Heartbeat { n: 0 }));
+        s.push(Op::Flush { from: 0, to: 1, k: "AE" });
+        s.push(Op::Flush { from: 1, to: 0, k: "AER" }); // n0 knows: n1 holds 1..3 (two of five, not committed)
+        s.extend(dropk(0, &[2, 3, 4], "AE"));
+        s.extend(elect(2, &[3, 4])); // n2 leads term 2
+        s.extend(dropk(2, &[0, 1], "RV"));
+        s.extend(replicate(2, &[3, 4]));
+        s.extend(dropk(2, &[0, 1], "AE"));
+        s.extend(props(2, 1)); // #4 at index 1 (term 2)
+        s.extend(replicate(2, &[0, 1, 3])); // n0 steps down through AppendEntries; 1..3 of term 1 are gone on n0 and n1
+        s.extend(dropk(2, &[4], "AE"));
+        s.extend(elect(0, &[1, 3])); // n0 leads term 3 with log [1:t2#4]
+        s.push(Op::Flush { from: 0, to: 2, k: "RV" }); // n2 steps down
+        s.extend(dropk(0, &[4], "RV"));
+        s.extend(props(0, 2)); // #5,#6 at 2,3 (term 3)
+        s.push(Op::E(Ev::Heartbeat { n: 0 }));
+        s.push(Op::Flush { from: 0, to: 3, k: "AE" });
+        s.extend(dropk(0, &[1, 2, 4], "AE"));
+        s.push(Op::Flush { from: 3, to: 0, k: "AER" }); // one real acknowledgement: n0 + n3 hold 2,3
+        s.extend(elect(2, &[1, 4])); // n2 (log [1:t2#4]) wins term 4 with n1 and n4
+        out.push(("reelected-leader-remembers-acks-of-its-earlier-term", 5, 0, s));
+    }
+    // 8. (5 voters, draining snapshots) A deposed leader still holds entries of its own term that
+    //    reached nobody, at the very positions where the cluster later committed other entries and
+    //    compacted past them; it can only be caught up with a snapshot.
+    {
+        let mut s = Vec::new();
+        s.extend(elect(0, &[1, 2]));
+        s.extend(dropk(0, &[3, 4], "RV"));
+        s.extend(replicate(0, &[1, 2]));
+        s.extend(dropk(0, &[3, 4], "AE"));
+        s.extend(props(0, 1)); // #1 at index 1
+        s.extend(replicate(0, &[1, 2, 3, 4])); // on all five
+        s.extend(props(0, 2)); // #2,#3 at 2,3 (term 1)
+        s.push(Op::E(Ev::Heartbeat { n: 0 }));
+        s.push(Op::Flush { from: 0, to: 1, k: "AE" });
+        s.push(Op::Flush { from: 1, to: 0, k: "AER" }); // n0 and n1 hold 1..3
+        s.extend(dropk(0, &[2, 3, 4], "AE"));
+        s.extend(elect(2, &[3, 4])); // n2 (log [1]) leads term 2
+        s.push(Op::Flush { from: 2, to: 0, k: "RV" }); // n0 learns term 2 and steps down (vote refused)
+        s.extend(dropk(2, &[1], "RV"));
+        s.extend(replicate(2, &[3, 4]));
+        s.extend(dropk(2, &[0, 1], "AE"));
+        s.push(Op::E(Ev::Isolate { n: 2 }));
+        s.extend(props(2, 2)); // #4,#5 at 2,3 (term 2) reach nobody
+        s.extend(elect(0, &[1, 3])); // n0 leads term 3 with 1..3 of term 1
+        s.extend(dropk(0, &[2, 4], "RV"));
+        s.extend(props(0, 1)); // #6 at index 4 (term 3)
+        for _ in 0..5 {
+            s.extend(replicate(0, &[1, 3])); // n3 has to be backed up to index 1 first
+        }
+        s.extend(dropk(0, &[2, 4], "AE"));
+        s.push(Op::E(Ev::Finalize { n: 0, upto: Some(3) })); // the application has applied up to 3
+        s.push(Op::E(Ev::LeaderTick { n: 0 })); // snapshot at 3 (term 1); 1..2 drained
+        s.push(Op::E(Ev::Heal { n: 2 }));
+        for _ in 0..6 {
+            s.extend(replicate(0, &[2])); // n2 steps down; every AppendEntries is refused (3 is of term 2 there)
+        }
+        s.extend(dropk(0, &[1, 3, 4], "AE"));
+        s.push(Op::E(Ev::SnapRequest { n: 2 }));
+        for _ in 0..4 {
+            s.push(Op::Flush { from: 2, to: 0, k: "SRQ" });
+            s.push(Op::Flush { from: 0, to: 2, k: "SRS" });
+        }
+        s.extend(replicate(0, &[2]));
+        s.extend(replicate(0, &[2]));
+        out.push(("deposed-leader-with-unreplicated-suffix-needs-snapshot", 5, 3, s));
     }
     out
 }
@@ -1935,7 +2059,7 @@ fn main() {
                 ("cases", args.by_tier(2_000, 20_000)),
                 ("distinct_nontrivial", args.by_tier(1_500, 15_000)),
                 ("mixed_cases", args.by_tier(500, 5_000)),
-                ("directed_scripts_run", 56),
+                ("directed_scripts_run", 72),
                 ("leaders_elected", args.by_tier(15_000, 150_000)),
                 ("committed_entries", args.by_tier(25_000, 250_000)),
                 ("commit_agreement_checks", args.by_tier(2_000_000, 20_000_000)),
